@@ -63,8 +63,9 @@ theorem opaque_contents (k m m' : Bytes) (hl : m.length = m'.length) (hk : k.len
     ∃ k', k'.length = m'.length ∧ xor k' m' = xor k m :=
   Oidc.Codec.opaque_otp k m m' hl hk
 
-/-- obligation against the regenerated facts: a second (block) key is passed to the cookie store, i.e. contents are encrypted -/
-def GoodCodec : Prop := 2 ≤ Oidc.Generated.cookieStoreKeyArgs ∧ Oidc.Generated.securecookieMaxLen = 4096 ∧ 32 ≤ Oidc.Generated.minEncryptionKeyLength
+/-- obligation against the regenerated facts: the cookie store is built from (hash key, block key) pairs only — every codec encrypts,
+    so there is no signing-only codec `EncodeMulti` could fall back to -/
+def GoodCodec : Prop := 2 ≤ Oidc.Generated.cookieStoreKeyArgs ∧ Oidc.Generated.cookieStoreAllPairsEncrypted = true ∧ Oidc.Generated.securecookieMaxLen = 4096 ∧ 32 ≤ Oidc.Generated.minEncryptionKeyLength
 instance : Decidable GoodCodec := by unfold GoodCodec; infer_instance
 theorem facts_ok : GoodCodec := by decide
 theorem current_encrypted : Oidc.Current.cookiesEncrypted = true := by decide
